@@ -90,6 +90,8 @@ pub struct Shard {
     case_hashes: HashSet<u64>,
     case_hash_overflow: bool,
     outcome_hashes: HashSet<u64>,
+    /// hashes of (case, outcome) pairs, compared between build profiles by the parent
+    pair_hashes: HashSet<u64>,
     pub counters: BTreeMap<String, u64>,
     pub samples: Vec<Value>,
     pub violations: Vec<Value>,
@@ -125,6 +127,7 @@ impl Shard {
             case_hashes: HashSet::new(),
             case_hash_overflow: false,
             outcome_hashes: HashSet::new(),
+            pair_hashes: HashSet::new(),
             counters: BTreeMap::new(),
             samples: Vec::new(),
             violations: Vec::new(),
@@ -238,6 +241,10 @@ impl Shard {
         }
     }
 
+    pub fn pair<T: Hash + ?Sized>(&mut self, p: &T) {
+        self.pair_hashes.insert(hash64(p));
+    }
+
     pub fn sample(&mut self, v: Value) {
         if self.samples.len() < 6 {
             self.samples.push(v);
@@ -290,6 +297,12 @@ impl Shard {
             bytes.extend_from_slice(&h.to_le_bytes());
         }
         let _ = std::fs::write(&opath, bytes);
+        let ppath = format!("{dir}/pairs-{}-{}-{}.bin", self.prop, std::process::id(), self.shard);
+        let mut bytes = Vec::with_capacity(self.pair_hashes.len() * 8);
+        for h in &self.pair_hashes {
+            bytes.extend_from_slice(&h.to_le_bytes());
+        }
+        let _ = std::fs::write(&ppath, bytes);
         let s = json!({
             "shard": self.shard,
             "enumerated": self.next_index,
@@ -299,6 +312,8 @@ impl Shard {
             "distinct_exact": !self.case_hash_overflow,
             "hash_file": hash_file,
             "outcome_file": opath,
+            "pair_file": ppath,
+            "debug_assertions": cfg!(debug_assertions),
             "counters": self.counters,
             "samples": self.samples,
             "violations": self.violations.len(),
